@@ -416,9 +416,22 @@ class Puppet:
             return res
         raise ValueError(c)
 
+    async def op_mkc(self, op):
+        """build a time condition NOW and keep the object (`c` may name the current time: ['eq', 'now']); it is
+        awaited later, by op await_c with the same slot `j`"""
+        c = [op['c'][0], time.now if op['c'][1] == 'now' else op['c'][1]]
+        self.w.iters[(self.a, 'cond', op['j'])] = (c, self.cond(c))
+        self.emit('p', op='mkc', j=op['j'])
+
     async def op_await_c(self, op):
+        made = self.w.iters.get((self.a, 'cond', op.get('j'))) if 'j' in op else None
+        if 'j' in op and made is None:
+            return      # (the slot was never filled)
+        if made is not None:
+            op = dict(op, c=made[0])
+
         async def f():
-            await self.cond(op['c'])
+            await (made[1] if made is not None else self.cond(op['c']))
         args = {'c': op['c']}
         c, now = op['c'], time.now
         if c[0] == 'ge':
